@@ -214,6 +214,45 @@ def harness_wait(sym):
                   lambda: f"Wait: {text} started at {sym.realize(wait_start)}, successor ran {sym.realize(ts - wait_start)} s later")
 
 
+REINVOKED = {
+    "macro_twice": ("Macro: W\n    Mark: S\n    Wait: 0.5s\n    Mark: E\nCall macro: W\nCall macro: W\nMark: END\n", False),
+    "alarm_twice": ("Alarm: In1 > 0\n    Mark: S\n    Wait: 0.5s\n    Mark: E\nMark: M1\n", True),
+}
+
+
+def harness_wait_reinvoked(sym):
+    """A Wait that is executed again (second call of a macro, second run of an Alarm body) waits again in full."""
+    t = sym.shard["template"]
+    pc, uses_in1 = REINVOKED[t]
+    d = 0.5
+    n = 40
+    with engine_rig(sym, pc) as rig:
+        rig.engine.uod.hwl.mem["In1"] = 1
+        rig.user("Start")
+        seen, events = [], []       # events: (mark, tick time) in order of appearance
+        for i in range(n):
+            dt = sym.real(f"d{i}", 0.1, 0.125)
+            rig.tick(dt)
+            sym.check(not rig.tick_errors, "tick-raised", lambda: f"Engine.tick raised {rig.tick_errors[:1]}")
+            marks = rig.marks()
+            for m in marks[len(seen):]:
+                events.append((m, rig.now))
+            seen = marks
+        pairs = []
+        start = None
+        for m, tm in events:
+            if m == "S":
+                start = tm
+            elif m == "E" and start is not None:
+                pairs.append((start, tm))
+                start = None
+        sym.check(len(pairs) >= 2, f"wait-not-reinvoked|template={t}", lambda: f"{t}: expected two invocations within {n} ticks, marks {seen}")
+        for k, (ts, te) in enumerate(pairs[:3]):
+            # the Wait starts after S ran, so E is at least d after S in every invocation
+            sym.check(te - ts >= d, f"reinvoked-wait-too-short|template={t}|invocation={'first' if k == 0 else 'later'}",
+                      lambda: f"{t}: invocation {k}: 'Wait: 0.5s' between S at {sym.realize(ts)} and E at {sym.realize(te)} lasted {sym.realize(te - ts)} s")
+
+
 def _shards_t(tier):
     out = []
     for t in TEMPLATES:
@@ -242,7 +281,14 @@ OBLIGATIONS = [
                bounds={"quick": "Wait durations 0.05 s, 0.3 s, 1 s, 0.01 min; 20 ticks", "thorough": "same"},
                assumptions=["floats modelled as reals", "tick increments within [0.1, 0.125] s (nominal interval 0.1 s, never faster)",
                             "late bound = d + (tick jitter allowance): the interpreter's own 0.1 s correction is taken as the nominal interval",
-                            "Wait start = start time of the Wait item in the run log"]),
+                            "Wait start = the tick in which the Wait line became 'started'"]),
+    Obligation(name="wait_reinvoked", kind="crosshair", harness=harness_wait_reinvoked, shards=lambda tier: [{"template": t} for t in REINVOKED],
+               cpu_budget={"quick": 300.0, "thorough": 1200.0},
+               encoded=["openpectus.lang.exec.pinterpreter:PInterpreter.visit_InterpreterCommandNode", "openpectus.lang.exec.pinterpreter:PInterpreter.visit_CallMacroNode",
+                        "openpectus.lang.exec.pinterpreter:PInterpreter.visit_AlarmNode", "openpectus.lang.model.ast:InterpreterCommandNode"],
+               symbolic="40 tick increments (reals in [0.1, 0.125] s)",
+               bounds={"quick": "'Wait: 0.5s' inside a macro called twice and inside an Alarm body that fires repeatedly; 40 ticks", "thorough": "same"},
+               assumptions=["floats modelled as reals", "the Wait starts after the Mark before it ran, so the Mark after it must come at least d later in every invocation"]),
 ]
 
 MANIFEST = {
